@@ -115,6 +115,7 @@ static inline bool TV(find_post)(TV_C o, const TV_C *n, uint64_t k, cstl_tp now,
     return ok.has ? TV(tdel_all)(o, n, k, g) /* expired: removed on the spot */ : TV(noop_all)(o, n, k, g);
 }
 /* time arithmetic of the public entry points */
+static inline bool TV(view_eq)(const TV_C *a, const TV_C *b, uint64_t g) { return TV(vw_same)(TV(view)(a, g), TV(view)(b, g)); }
 /* "TTL representable on the clock": 0 <= ttl, convertible, and now + ttl does not overflow the 64-bit
  * nanosecond clock.  ttl == G_MS ties the call's TTL to the abstracted conversion (cstl.h). */
 static inline bool TV(ttl_ok)(cstl_tp now, cstl_ms ttl) { return ttl == G_MS && ttl >= 0 && ttl <= INT64_MAX / 1000000 && now >= 0 && now <= INT64_MAX - cstl_ms_to_ns(ttl); }
